@@ -146,10 +146,17 @@ def gen_value(rng, opt):
     return ["tuple", [gen_number(rng), gen_number(rng)]]
 
 
+INT_OPTS = ("sf_value", "sf_error", "mc_size")
+
+
 def gen_history(rng, n):
     ops = []
     for _ in range(n):
-        if rng.random() < 0.12:
+        prev = ops[-1] if ops else None
+        if prev and prev[0] == "set" and prev[1] in INT_OPTS and prev[2][0] == "int" and prev[2][1] > 0 and rng.random() < 0.3:
+            # the number just accepted, again, but as a float (equal value, wrong type), to the same or a sibling option
+            ops.append(["set", rng.choice(INT_OPTS), ["float", float(prev[2][1]).hex()]])
+        elif rng.random() < 0.12:
             ops.append(["reset"])
         else:
             opt = rng.choice(OPTS)
@@ -494,8 +501,13 @@ def search(ctx, suspects, budget):
         why = check_history_oracle(ops, fresh_vec)
         if why:
             small = shrink_list(ops, lambda o: check_history_oracle(o, fresh_vec) is not None)
-            why = check_history_oracle(small, fresh_vec) or why
-            out.append(Violation(ID, "history", small, why))
+            v = Violation(ID, "history", small, check_history_oracle(small, fresh_vec) or why)
+            if not core.fresh_process_fails(v) and core.fresh_process_fails(Violation(ID, "history", ops, why)):
+                # the in-process shrinker was helped by state left behind by earlier calls: shrink again, judging every
+                # candidate in a fresh interpreter
+                small = shrink_list(ops, lambda o: core.fresh_process_fails(Violation(ID, "history", o, why)), max_rounds=2)
+                v = Violation(ID, "history", small, why + " (history judged in a fresh interpreter)")
+            out.append(v)
             if len(out) >= 3:
                 break
     m = 0
